@@ -124,6 +124,7 @@ fn gen(seed: u64) -> GatherPlan {
             f.help = Some("custom".into());
         }
         p.custom = fams;
+        p.custom_type_unset = r.chance(30);
     }
     // every f64 class in float-valued scalars: zero, negative zero, NaN, infinities, subnormal
     for m in p.metrics.iter_mut() {
